@@ -514,6 +514,8 @@ class ConfigParser(object):
     if self._current_token.string == '-':
       token_value += self._current_token.string
       self._advance()
+      if self._current_token.type != tokenize.NUMBER:
+        self._raise_syntax_error("Expected a number after '-'.")
 
     basic_type_tokens = [tokenize.NAME, tokenize.NUMBER, tokenize.STRING]
     continue_parsing = self._current_token.type in basic_type_tokens
